@@ -137,6 +137,23 @@ def s55(ctx, prog):
             if c != 1 and not (handed and c == 0) and not droppable:
                 bad = True
                 ctx.violation('S5.5', 'sub-branch:' + label, 'lost-or-duplicated', 'node %s is placed %d times on a path through the separator branch (must be exactly once)' % (fmt(tkn)[:100], c), span=f.span)
+    # S5.7 the kind test that decides between continuing an open sequence and starting a new one compares a sequence on the stack with
+    # the incoming separator (and nothing else): every `mem::discriminant(..) == mem::discriminant(..)` in the branch has the separator
+    # node's operator on one side and the operator of `root` / of a node popped from root_stack on the other
+    n_kind = 0
+    wrong_kind = []
+    for ret, eff in paths:
+        for v, taken in branches_of(eff):
+            if v[0] == 'app' and v[1].split('::')[-1] in ('eq', 'ne') and 'PartialEq' in v[1] and len(v[2]) == 2 and all(x_[0] == 'app' and x_[1].endswith('mem::discriminant') for x_ in v[2]):
+                n_kind += 1
+                sides = [x_[2][0] for x_ in v[2]]
+                node_op = ('proj', SYM('node'), ('operator',))
+                others = [x_ for x_ in sides if x_ != node_op]
+                ok_ = len(others) == 1 and others[0][0] == 'proj' and others[0][2][-1:] == ('operator',) and (
+                    others[0][1] == SYM('root') or any(n_.split('::')[-1].split('#')[0] in ('pop', 'last', 'last_mut') and x2 and x2[0] == SYM('root_stack') for n_, x2 in apps(others[0])))
+                if not ok_ and len(wrong_kind) < 3:
+                    wrong_kind.append(fmt(v)[:160])
+    ctx.check(not wrong_kind and n_kind >= 2, 'S5.7', 'same-kind-test', 'kind-test', 'the same-kind test compares the sequence on the stack with the incoming separator (%d tests; deviations: %s)' % (n_kind, wrong_kind), span=f.span)
     if not bad:
         ctx.ok('S5.5', 'element-conservation', 'on all %d paths every placed node is owned (moved) and every removed node is placed exactly once' % n, span=f.span)
     ctx.floor('S5.5', 'separator_paths', n, 4)
